@@ -64,6 +64,87 @@ type Decl struct {
 	UserEqual   string
 	UserCompare string
 	Recursive   bool
+	// Generic / TArgs: the declaration is one instantiation G0[TArgs...] of a generic struct of the subject package.
+	// Name is the generic's name, Fields are the fields with the arguments substituted; the generic declaration
+	// itself is emitted once from Generic.
+	Generic *GenericDecl
+	TArgs   []*Type
+}
+
+// GenericDecl is a generic struct declaration: type G0[T0 any, T1 any] struct { F0 T0; F1 []T1; ... }.
+type GenericDecl struct {
+	Name    string
+	NParams int
+	Fields  []GField
+}
+
+// GField is a field of a generic struct: Shape applied to type parameter Param.
+// Shapes: 0 T, 1 []T, 2 *T, 3 map[string]T, 4 [2]T, 5 int (no parameter).
+type GField struct {
+	Name  string
+	Shape int
+	Param int
+}
+
+func (f GField) apply(arg *Type) *Type {
+	switch f.Shape {
+	case 0:
+		return arg
+	case 1:
+		return SliceOf(arg)
+	case 2:
+		return PtrTo(arg)
+	case 3:
+		return MapOf(B("string"), arg)
+	case 4:
+		return ArrayOf(2, arg)
+	}
+	return B("int")
+}
+
+func (f GField) src() string {
+	t := fmt.Sprintf("T%d", f.Param)
+	switch f.Shape {
+	case 0:
+		return t
+	case 1:
+		return "[]" + t
+	case 2:
+		return "*" + t
+	case 3:
+		return "map[string]" + t
+	case 4:
+		return "[2]" + t
+	}
+	return "int"
+}
+
+// Src renders the generic declaration.
+func (g *GenericDecl) Src() string {
+	var ps []string
+	for i := 0; i < g.NParams; i++ {
+		ps = append(ps, fmt.Sprintf("T%d any", i))
+	}
+	var sb strings.Builder
+	fmt.Fprintf(&sb, "type %s[%s] struct {\n", g.Name, strings.Join(ps, ", "))
+	for _, f := range g.Fields {
+		fmt.Fprintf(&sb, "\t%s %s\n", f.Name, f.src())
+	}
+	sb.WriteString("}\n\n")
+	return sb.String()
+}
+
+// Instantiate returns the declaration of G[args...].
+func (g *GenericDecl) Instantiate(args []*Type) *Decl {
+	d := &Decl{Name: g.Name, IsStruct: true, Generic: g, TArgs: args}
+	for _, f := range g.Fields {
+		var a *Type
+		if f.Shape != 5 {
+			a = args[f.Param]
+		}
+		d.Fields = append(d.Fields, Field{Name: f.Name, Type: f.apply(a)})
+	}
+	return d
 }
 
 // ExtPkg is an imported package of the subject module.
@@ -98,6 +179,17 @@ type Qual struct {
 }
 
 func (q Qual) declName(d *Decl) string {
+	if d.Generic != nil {
+		var as []string
+		for _, a := range d.TArgs {
+			as = append(as, a.Str(q))
+		}
+		inst := d.Name + "[" + strings.Join(as, ", ") + "]"
+		if q.From == nil {
+			return inst
+		}
+		return q.Subj + "." + inst
+	}
 	if d.Pkg == q.From || (d.Pkg != nil && q.From != nil && d.Pkg.Dir == q.From.Dir) {
 		return d.Name
 	}
@@ -350,6 +442,9 @@ func (t *Type) Features() []string {
 					}
 				}
 			}
+			if d.Generic != nil {
+				add("generic")
+			}
 			if d.IsStruct {
 				add("struct")
 				if d.Recursive {
@@ -424,7 +519,11 @@ func (t *Type) Ident() string {
 		if t.Decl.Pkg != nil {
 			return strings.Title(strings.ReplaceAll(t.Decl.Pkg.Dir, "/", "")) + t.Decl.Name
 		}
-		return t.Decl.Name
+		id := t.Decl.Name
+		for _, a := range t.Decl.TArgs {
+			id += "Of" + a.Ident()
+		}
+		return id
 	}
 	return "X"
 }
